@@ -13,10 +13,41 @@ KINDS = {"module": {2}, "submodule": {2}, "program": {2}, "sub": {12, 6}, "fun":
          "component": {13, 8, 7}, "binding": {6, 12}, "var": {13}}
 
 
+# variable names that BEGIN with a keyword of the statement grammar (still ordinary names)
+KWNAMES = ["v", "blocks", "interface_flux", "imports", "end_time", "endpoint", "contains_x", "type_x", "use_count", "program_id", "module_idx",
+           "do_it", "if_flag", "select_k", "where_x", "associate_n", "procedure_k", "function_v", "subroutine_v", "implicit_v", "private_v",
+           "public_v", "enum_v", "block_size", "data_x", "critical_v", "forall_x", "import_count", "interfaces", "submodule_v", "elsewhere_x",
+           "include_x", "call_count", "result_v", "only_v", "generic_v", "final_v", "class_v", "double_v", "character_v", "real_v", "external_v"]
+
+
 def nm(n):
     if not n:
         return ""
+    if n[0] == "v":
+        return "%s%d" % (KWNAMES[n[1] % len(KWNAMES)], n[1])
     return "%s%d" % (PFX.get(n[0], n[0]), n[1])
+
+
+DECL_FORMS = ["integer :: %s", "character(len=3) :: %s", "double precision :: %s", "complex :: %s", "real :: %s",
+              "real(kind=8) :: %s(3) = 0.0", "character(len=8) :: %s(2) = 'ab'", "integer(4) :: %s(2) = [1, 2]", "logical :: %s = .true."]
+ASSIGN = ["%s = 1", "%s = 'a'", "%s = 1", "%s = 1", "%s = 1", "%s(1) = 0.0", "%s(1) = 'a'", "%s(1) = 1", "%s = .false."]
+
+
+def exec_text(prog, i):
+    """An executable statement: an assignment to the nearest variable declared before it in the same scope
+    (so that names beginning with keywords occur at the start of statements), else CONTINUE."""
+    st = prog[i]
+    for j in range(i - 1, -1, -1):
+        pj = prog[j]
+        if pj["op"] == "open" and pj["depth"] == st["depth"] - 1:
+            # the opener of the enclosing scope / construct: constructs share their host's variables
+            if pj["kind"] in OPEN_CONSTRUCT and pj["kind"] != "block":
+                st = pj
+                continue
+            break
+        if pj["op"] == "decl" and pj["kind"] == "var" and pj["depth"] == st["depth"]:
+            return ASSIGN[pj["ln"] % len(ASSIGN)] % nm(pj["name"])
+    return "continue"
 
 
 def first_module_proc(prog, i):
@@ -44,6 +75,8 @@ def stmt_text(prog, i, ibody_kinds):
         if kind == "program":
             return "program " + n
         if kind == "submodule":
+            if st.get("root"):
+                return "submodule (%s:%s) %s" % (nm(st["root"]), nm(st["parent"]), n)
             return "submodule (%s) %s" % (nm(st["parent"]), n)
         arg = nm(st["arg"]) if st.get("arg") else ""
         if kind == "sub":
@@ -79,9 +112,7 @@ def stmt_text(prog, i, ibody_kinds):
         if kind == "typedvar":
             return "type(%s) :: %s" % (nm(st["tname"]), nm(st["name"]))
         # plain declarations rotate through intrinsic types (some start with the fixed-form comment letters c / d)
-        forms = ["integer :: %s", "character(len=3) :: %s", "double precision :: %s", "complex :: %s", "real :: %s",
-                 "real(kind=8) :: %s(3) = 0.0", "character(len=8) :: %s(2) = 'ab'", "integer(4) :: %s(2) = [1, 2]", "logical :: %s = .true."]
-        return forms[st["ln"] % len(forms)] % nm(st["name"])
+        return DECL_FORMS[st["ln"] % len(DECL_FORMS)] % nm(st["name"])
     if op in ("contains", "typecontains"):
         return "contains"
     if op == "binding":
@@ -89,7 +120,7 @@ def stmt_text(prog, i, ibody_kinds):
     if op == "exec":
         if kind == "longexec":
             return "print *, '%s'" % ("x" * 150)
-        return "continue"
+        return exec_text(prog, i)
     if op == "import":
         return "import"
     if op == "private":
